@@ -15,35 +15,56 @@ use std::{
 
 pub struct Outcome {
     pub violations: Vec<Violation>,
+    pub observations: Vec<Violation>,
     pub summary: oracle::Summary,
     pub out: run::RunOut,
 }
 
-const OUTCOME_ORACLES: &[&str] = &["c18.error_under_finite_faults", "c18.hang", "c18.eof_short", "c18.payload_mismatch", "c18.stream_identity"];
+/// outcome-level findings that, in a C18 run, are attributed to forgeries by a differential run
+const OUTCOME_ORACLES: &[&str] = &["c18.error_under_finite_faults", "c18.hang", "c18.eof_short", "c18.payload_mismatch", "c18.stream_identity", "c18.livelock"];
 
 pub fn run_plan(plan: &Plan) -> Outcome {
     let out = run::execute(plan);
-    let mut violations = oracle::evaluate(plan, &out);
+    let oracle::Verdict { mut violations, mut observations } = oracle::evaluate(plan, &out);
     let summary = oracle::summarize(plan, &out);
-    // differential attribution: does the outcome go away when the forged copies are withheld
-    // (the originals they replaced are dropped instead)?
-    if plan.property == "C18" && !plan.forge_as_drop && !plan.forges.is_empty() && violations.iter().any(|v| OUTCOME_ORACLES.contains(&v.oracle.as_str())) {
+    // C18 differential attribution: does a failed outcome go away when the forged copies are
+    // withheld (the originals they replaced are dropped instead)?  If so a forged datagram was
+    // acted upon.
+    let is_outcome = |v: &Violation| OUTCOME_ORACLES.contains(&v.oracle.as_str());
+    if plan.property == "C18" && !plan.forge_as_drop && !plan.forges.is_empty() && (violations.iter().any(is_outcome) || observations.iter().any(is_outcome)) {
         let mut p2 = plan.clone();
         p2.forge_as_drop = true;
         let out2 = run::execute(&p2);
         let v2 = oracle::evaluate(&p2, &out2);
-        if !v2.iter().any(|v| OUTCOME_ORACLES.contains(&v.oracle.as_str())) {
-            let sig = if out.stats.forged_first_flight > 0 { "first_flight" } else { "other" };
+        if !v2.violations.iter().any(is_outcome) && !v2.observations.iter().any(is_outcome) {
+            let pos = if out.stats.forged_first_flight > 0 { "first_flight" } else { "mid_stream" };
+            let mut moved = vec![];
+            observations.retain(|v| {
+                if is_outcome(v) {
+                    moved.push(v.clone());
+                    false
+                } else {
+                    true
+                }
+            });
+            violations.extend(moved);
             for v in violations.iter_mut() {
-                if OUTCOME_ORACLES.contains(&v.oracle.as_str()) {
+                if is_outcome(v) {
                     v.detail = format!("[{}; absent when the forged copies are withheld] {}", v.oracle, v.detail);
+                    let what = if v.oracle.ends_with("hang") || v.oracle.ends_with("livelock") {
+                        "hang"
+                    } else if v.oracle.ends_with("error_under_finite_faults") {
+                        "error"
+                    } else {
+                        "data"
+                    };
                     v.oracle = "c18.forged_packet_changes_outcome".into();
-                    v.sig = sig.into();
+                    v.sig = format!("{pos}:{what}");
                 }
             }
         }
     }
-    Outcome { violations, summary, out }
+    Outcome { violations, observations, summary, out }
 }
 
 fn with_capture<R>(f: impl FnOnce() -> R) -> R {
@@ -298,6 +319,9 @@ pub fn replay(path: &str) -> i32 {
             code = 1;
         }
     }
+    for v in &o.observations {
+        println!("observation (not a violation): {} :: {}", v.oracle, v.detail);
+    }
     if o.violations.is_empty() {
         println!("replay: no violation");
     }
@@ -372,6 +396,9 @@ struct Agg {
     datagrams: u64,
     end_kinds: BTreeMap<String, u64>,
     max_vanish_err_delay_ms: u64,
+    observations: BTreeMap<String, u64>,
+    observation_samples: Vec<Value>,
+    max_datagram: u32,
 }
 
 fn end_class(e: &str) -> String {
@@ -457,6 +484,9 @@ pub fn check(a: &CheckArgs) -> i32 {
                     }
                     let seed = base.wrapping_add(i);
                     started.lock().unwrap().insert(w, (seed, Instant::now()));
+                    if std::env::var("VERIF_TRACE_SEEDS").is_ok() {
+                        eprintln!("start seed {seed} on worker {w}");
+                    }
                     let plan = gen::plan_for(property, seed);
                     let t_run = Instant::now();
                     let o = run_plan(&plan);
@@ -517,6 +547,13 @@ pub fn check(a: &CheckArgs) -> i32 {
                     for v in &o.violations {
                         g.violations.push((seed, v.clone()));
                     }
+                    for v in &o.observations {
+                        *g.observations.entry(v.oracle.clone()).or_insert(0) += 1;
+                        if g.observation_samples.len() < 4 {
+                            g.observation_samples.push(json!({"seed": seed, "oracle": v.oracle, "detail": v.detail}));
+                        }
+                    }
+                    g.max_datagram = g.max_datagram.max(o.out.stats.max_len[0]).max(o.out.stats.max_len[1]);
                 }
             });
         }
@@ -526,7 +563,8 @@ pub fn check(a: &CheckArgs) -> i32 {
         let next2 = next.clone();
         s.spawn(move || loop {
             std::thread::sleep(Duration::from_millis(100));
-            if t0.elapsed() > budget {
+            // stop launching a little before the budget ends: runs in flight need time to finish
+            if t0.elapsed() + Duration::from_secs(if thorough { 20 } else { 8 }) > budget {
                 stop2.store(true, Ordering::Relaxed);
             }
             let g = started2.lock().unwrap();
@@ -608,6 +646,9 @@ pub fn check(a: &CheckArgs) -> i32 {
         "reach_probe_runs": g.probe_runs,
         "app_result_classes": g.end_kinds,
         "max_error_delay_after_vanish_ms": g.max_vanish_err_delay_ms,
+        "largest_datagram_bytes": g.max_datagram,
+        "observations_not_violations": {"counts": g.observations, "samples": g.observation_samples,
+            "note": "streams that ended in an error although only finite faults (loss/dup/reorder/short blackhole) were injected; tolerated by the property (deliver exactly or fail promptly), listed for triage"},
         "components": {
             "real": ["s2n-quic-dc stream send/recv state machines and workers (UDP, bach environment)", "dc packet encoders/decoders (stream, control, secret-control)", "dc crypto (aws-lc AEAD/HMAC), key schedule", "path::secret::Map, entries, sender/receiver key-id state, socket pool + router + accept queue"],
             "stub": ["dc handshake (PSK over QUIC + s2n-tls) replaced by the crate's test_insert_pair / in the map driver by the public dc::Path callbacks with a fixed TLS exporter", "network (bach net + /verif link allocator)", "clock and executor (bach virtual time, single thread)", "map control socket (real std::net::UdpSocket in the crate: StaleKey/ReplayDetected leave the simulation unobserved)"]
@@ -714,6 +755,28 @@ pub fn main(args: &[String]) -> i32 {
                 }
             }
             println!("nontrivial {} hash {:016x}", o.summary.nontrivial, o.summary.hash);
+            for v in &o.violations {
+                println!("violation {} :: {}", v.oracle, v.detail);
+            }
+            for v in &o.observations {
+                println!("observation {} :: {}", v.oracle, v.detail);
+            }
+            println!("heap_overruns {:?} max datagram {:?}", o.out.heap_overruns, o.out.stats.max_len);
+            0
+        }
+        "min" => {
+            let prop = it.next().cloned().unwrap_or_default();
+            let seed: u64 = it.next().and_then(|s| s.parse().ok()).unwrap_or(0);
+            let oracle_id = it.next().cloned().unwrap_or_default();
+            let original = gen::plan_for(&prop, seed);
+            let (min, o) = with_capture(|| {
+                let min = minimise(&original, &oracle_id);
+                let o = run_plan(&min);
+                (min, o)
+            });
+            let doc = json!({"engine": "dcsim", "property": prop, "seed": seed, "violation": o.violations.iter().find(|v| v.oracle == oracle_id), "trace_hash": format!("{:016x}", o.summary.hash), "plan": min, "original_plan": original, "fault_trace": fault_trace(&o.out, 64), "app_results": summarize(&min, &o)["app_results"]});
+            let path = simkit::write_replay_doc(&prop, &format!("{seed}-min"), &doc);
+            println!("minimised plan written to {path}");
             for v in &o.violations {
                 println!("violation {} :: {}", v.oracle, v.detail);
             }
